@@ -15,7 +15,34 @@ pub struct PanicInfo {
 
 static LAST_PANIC: Mutex<Option<PanicInfo>> = Mutex::new(None);
 
+/// A logger that formats every record and throws it away. The shipped binary logs at level `info` by default and can be
+/// asked for `trace`: with no logger installed the log macros do not even evaluate their arguments, and a panic inside
+/// one of them (an unwrap, a slice, an overflow in a format argument) would stay invisible.
+struct SinkLogger;
+impl log::Log for SinkLogger {
+    fn enabled(&self, _: &log::Metadata) -> bool {
+        true
+    }
+    fn log(&self, record: &log::Record) {
+        use std::fmt::Write as _;
+        thread_local! {
+            static BUF: std::cell::RefCell<String> = const { std::cell::RefCell::new(String::new()) };
+        }
+        BUF.with(|b| {
+            if let Ok(mut b) = b.try_borrow_mut() {
+                b.clear();
+                let _ = write!(b, "{}", record.args());
+            }
+        });
+    }
+    fn flush(&self) {}
+}
+static SINK: SinkLogger = SinkLogger;
+
 pub fn install_panic_hook() {
+    if log::set_logger(&SINK).is_ok() {
+        log::set_max_level(log::LevelFilter::Trace);
+    }
     panic::set_hook(Box::new(|info| {
         let (file, line) = info.location().map(|l| (l.file().to_string(), l.line())).unwrap_or((String::from("?"), 0));
         let msg = if let Some(s) = info.payload().downcast_ref::<&str>() {
